@@ -1,7 +1,7 @@
 """C05 -- 8-valued logic simulation conservatively predicts timing simulation."""
 import z3
 
-from contracts import logic_sim_c, logic_c, wave_c
+from contracts import logic_sim_c, logic_c, wave_c, wave_comp_c
 from pyvc.verify import verify, Lemmas
 from pyvc.values import SBool
 from pyvc.logic import And, Or, Not, implies, iff
@@ -35,7 +35,7 @@ def run(tier, seed):
                          'carry the per-op step; lifting to whole circuits (and "no transition at all") is a paper induction. Tier B (bounded): the pair (LogicSim(m=8), WaveSim) '
                          'on real runs for 0/1/R/F stimuli with arbitrary times over the option settings of both simulators.')
     bp8 = [t for t in logic_c.bp_targets() if 'bp8v' in t.qualname]
-    res.report = verify([act_lemmas(), logic_sim_c.xsound_lemmas()] + bp8 + logic_sim_c.targets(ms=(8,), callback=(False,)) + wave_c.targets(),
+    res.report = verify([act_lemmas(), logic_sim_c.xsound_lemmas()] + bp8 + logic_sim_c.targets(ms=(8,), callback=(False,)) + wave_c.targets() + wave_comp_c.targets_c13(),
                         timeout_s=30 if tier == 'quick' else 120)
     res.bounded = [wave_parts.part_c05(tier, seed)]
     res.assumptions = ['stage 4 of _wave_eval (operand abstraction consistent with W(X) => output without finite entry) is not discharged; the circuit-level clause is bounded evidence',
